@@ -53,11 +53,9 @@ Definition seq_arity (nl : netlist) : bool := forallb seq_arity_ok (nets nl).
 (* transform.clone_wire, per class: which attributes the clone receives.
      Const  -> Const(old.val, old.bitwidth, name)
      others -> old.__class__(old.bitwidth, name=name)
-   ***  THE ONE SPOT THAT MODELS DEFECT F2  ***
-   As the code stands a Register clone is built without reset_value, so the
-   clone's reset_value is None.  When /repo is repaired replace the body by
-   `k` (= clone_kind_spec) and swap the marked theorem in Props/C11.v. *)
-Definition clone_kind (k : kind) : kind :=
+   A Register clone is built without reset_value (defect F2), so the clone's
+   reset_value is None: *)
+Definition clone_kind_f2 (k : kind) : kind :=
   match k with
   | KReg _ => KReg None
   | k => k
@@ -65,6 +63,13 @@ Definition clone_kind (k : kind) : kind :=
 
 (* what the property requires of clone_wire: every attribute is kept *)
 Definition clone_kind_spec (k : kind) : kind := k.
+
+(* ***  THE ONE SPOT THAT SAYS WHAT /repo DOES NOW  ***
+   `clone_kind_f2` while transform.clone_wire drops reset_value; when /repo is
+   repaired put `clone_kind_spec` here and swap the marked theorem in
+   Props/C11.v (instructions there).  The check's structural tie compares this
+   definition with the real copy_block on every run and says so when it is stale. *)
+Definition clone_kind : kind -> kind := clone_kind_f2.
 
 Definition map_kinds (ck : kind -> kind) (nl : netlist) : netlist :=
   mkNetlist (map (fun x => mkWire (wname x) (wwidth x) (ck (wkind x))) (wires nl))
